@@ -78,10 +78,16 @@ struct Runner {
     rng: Rng,
     out: BufWriter<std::io::Stdout>,
     seen_ext: BTreeSet<(usize, usize, usize)>,
+    /// announce every case on stderr before it runs (the large-input modes): if the real code takes the
+    /// process down, the last announced case is the failing input
+    announce: bool,
 }
 
 impl Runner {
     fn run_case(&mut self, c: &Case) {
+        if self.announce {
+            eprintln!("CASE M cfg={} hr={} nr={} hay={} needle={}", c.cfg, if c.hr_ascii { "A" } else { "U" }, if c.nr_ascii { "A" } else { "U" }, hex_cps(&c.hay), hex_cps(&c.needle));
+        }
         let cfg = config_of(c.cfg);
         let hb = to_bytes(&c.hay);
         let nb = to_bytes(&c.needle);
@@ -363,8 +369,15 @@ fn sizes(r: &mut Runner, count: usize) {
         (513, 200), (520, 200), (30000, 3), (22000, 3), (70000, 3),
     ];
     for k in 0..count {
-        let (hl, nl) = shapes[k % shapes.len()];
+        let (mut hl, mut nl) = shapes[k % shapes.len()];
         let uni = r.rng.chance(1, 3);
+        if k >= shapes.len() {
+            // beyond the fixed list: short needles with a window drawn from a band around the point where the
+            // scratch layout (about `133120 / (needle + char size + 9)` columns) stops fitting the slab
+            nl = *r.rng.pick(&[2usize, 3, 4, 6, 8, 12, 16, 24, 32, 64]);
+            let b = 133120 / (nl + if uni { 4 } else { 1 } + 9);
+            hl = b * (85 + r.rng.below(45) as usize) / 100;
+        }
         let mut cfg = r.rng.below(4) as u32 | ((r.rng.below(2) as u32) << 3);
         if r.rng.chance(1, 3) {
             cfg |= 4;
@@ -383,6 +396,44 @@ fn sizes(r: &mut Runner, count: usize) {
         idx.sort();
         idx.dedup();
         let needle: Vec<char> = idx.iter().map(|&i| norm_any(hay[i], hr_ascii, &config)).collect();
+        let nr_ascii = needle.iter().all(|c| c.is_ascii()) && r.rng.chance(4, 5);
+        r.run_case(&Case { cfg, hr_ascii, nr_ascii, hay, needle });
+    }
+}
+
+/// matches that start far into the haystack: a filler that shares no character with the needle, of a length
+/// around the 16-bit boundaries, then a short tail in which the needle occurs as a subsequence (so the matrix
+/// path runs on a small window at a large offset)
+fn far(r: &mut Runner, count: usize) {
+    let offs: &[usize] = &[65534, 65535, 65536, 65537, 65600, 70000, 100000, 131071, 131072, 131080, 200000, 40000];
+    for k in 0..count {
+        let off = offs[k % offs.len()];
+        let uni = r.rng.chance(1, 2);
+        let mut cfg = r.rng.below(4) as u32 | ((r.rng.below(2) as u32) << 3);
+        if r.rng.chance(1, 4) {
+            cfg |= 4;
+        }
+        let config = config_of(cfg);
+        let filler = if uni && r.rng.chance(1, 2) { '日' } else { '-' };
+        let mut hay: Vec<char> = vec![filler; off];
+        let tl = 4 + r.rng.below(30) as usize;
+        let pool: Vec<char> = if uni { POOL_ASCII[..12].iter().chain(POOL_UNI[..6].iter()).copied().filter(|&c| c != filler).collect() } else { POOL_ASCII[..14].to_vec() };
+        let tail: Vec<char> = (0..tl).map(|_| *r.rng.pick(&pool)).collect();
+        hay.extend(tail.iter());
+        if !uni {
+            // stays ASCII
+        } else if filler == '-' {
+            hay[r.rng.below(off as u64) as usize] = 'ä';
+        }
+        let hr_ascii = !uni;
+        let nl = 1 + r.rng.below(5.min(tl as u64)) as usize;
+        let mut idx: Vec<usize> = (0..nl).map(|_| off + r.rng.below(tl as u64) as usize).collect();
+        idx.sort();
+        idx.dedup();
+        let needle: Vec<char> = idx.iter().map(|&i| norm_any(hay[i], hr_ascii, &config)).collect();
+        if needle.iter().any(|&c| c == norm_any(filler, hr_ascii, &config) || c == 'ä' || c == 'a' && uni && filler == '-') {
+            continue;
+        }
         let nr_ascii = needle.iter().all(|c| c.is_ascii()) && r.rng.chance(4, 5);
         r.run_case(&Case { cfg, hr_ascii, nr_ascii, hay, needle });
     }
@@ -414,6 +465,7 @@ fn main() {
         rng: Rng::new(seed ^ 0x4d41),
         out: BufWriter::with_capacity(1 << 20, std::io::stdout()),
         seen_ext: BTreeSet::new(),
+        announce: matches!(mode, "sizes" | "long" | "far" | "corpus"),
     };
     match mode {
         "rand" => {
@@ -444,6 +496,7 @@ fn main() {
         }
         "sizes" => sizes(&mut r, args[2].parse().unwrap()),
         "long" => long_needles(&mut r, args[2].parse().unwrap()),
+        "far" => far(&mut r, args[2].parse().unwrap()),
         "corpus" => {
             // re-run cases given as M lines (cfg/hr/nr/hay/needle fields) on stdin
             let stdin = std::io::stdin();
